@@ -287,6 +287,11 @@ def run(ctx) -> None:
 
     # ---- R5 ---------------------------------------------------------------------
     check_completions_emit(ctx, "C17.R5")
+    # ... and the signal is produced under the producer's *current* emit names (what waiters and the graph see), not
+    # under the names captured when the node was constructed
+    from .c06 import check_emit_names_current
+
+    check_emit_names_current(ctx, "C17.R5")
     check_wrapper_offers_no_inner_signals(ctx, "C17.R5")
 
 
